@@ -69,7 +69,8 @@ ReadsCoherent(o) ==
          /\ IF o.raw.cls = "ok"
             THEN /\ o.ex /\ o.exp.cls = "ok" /\ o.raw.cas = o.gx.cas
                  /\ o.gwx.cls = "ok" /\ o.gwx.body = o.raw.body /\ o.gwx.cas = o.gx.cas
-                 /\ o.gwx.xa = o.gx.xa /\ o.gx.crc = o.raw.body
+                 \* (the checksum of a body of length zero is the checksum of no body: token b0)
+                 /\ o.gwx.xa = o.gx.xa /\ o.gx.crc = (IF B(o.raw.body) = RawBody(<<>>) THEN "b0" ELSE o.raw.body)
             ELSE /\ o.raw.cls = "missing" /\ ~o.ex /\ o.exp.cls \in {"ok", "missing"}
                  /\ o.gx.crc = "b0"
                  /\ IF \E x \in XNames : o.gx.xa[x].t # "-"
